@@ -219,6 +219,8 @@ def run_scenario(run, e4, sc):
         if sc.get("pidfile_garbage"):
             with open(settings["pidfile"], "w") as f:       # somebody blanked / overwrote the pid file
                 f.write(sc["pidfile_garbage"])
+        # (a pid alone does not name a process for long on a busy machine: the start time goes with it)
+        born = {p: e4.start_ticks(p) for p in workers_before}
         t_sig = time.monotonic()
         srv.signal(SIGS[signame])
         go.set()
@@ -247,10 +249,10 @@ def run_scenario(run, e4, sc):
         late = (t_exit - t_sig) > limit
         time.sleep(0.5)
         srv.reap()
-        survivors = [p for p in workers_before if e4.alive(p)]
+        survivors = [p for p in workers_before if e4.alive(p) and e4.start_ticks(p) == born[p]]
         if survivors:
             time.sleep(0.5)
-            survivors = [p for p in survivors if e4.alive(p)]
+            survivors = [p for p in survivors if e4.alive(p) and e4.start_ticks(p) == born[p]]
         if survivors:
             v.append(("worker-survived-master", "worker pids %s still running after the master exited (%s, %s)" % (
                 survivors, wc, signame)))
